@@ -11,7 +11,7 @@ Three computations per history, on the same events:
                      property oracle evaluated on the real code's observables.
 Virtual time only takes values k/8 s (exact in binary64), so the model's integer milliseconds agree with Python's floats.
 """
-import struct, itertools, copy, re
+import struct, itertools, copy, re, json
 import common, poxenv
 from common import Check
 import c03
@@ -708,23 +708,106 @@ class C04(Check):
             out.append({"outs": o, "flows": t.view(), "pool": [0 if b is None else 1 for b in t.slots]})
         return out
 
+    def first_ambiguous(self, case):
+        """index of the first step at which a frame matches TWO entries of equal effective priority (the standard leaves open which one is
+        used — and so whose counters move and what is emitted); from there on the history is not judged"""
+        key = id(case)
+        if getattr(self, "_amb_memo", (None, None))[0] == key: return self._amb_memo[1]
+        t = SpecTable(T0, case["max"], None, case.get("bufs", 100)); res = None
+        for n, op in enumerate(case["ops"]):
+            subs = op["ops"] if op["op"] == "batch" else [op]
+            if any(o["op"] == "pkt" for o in subs) and op["op"] == "pkt":
+                h = spec_headers(self.phdr(op["frame"]), op["port"])
+                m = [f for f in t.flows if spec_match(f["m"], h)]
+                if len(m) >= 2 and flow_rank(m[0]) == flow_rank(m[1]): res = n; break
+            if op["op"] == "pkt": t.step(op, self.phdr(op["frame"]), len(op["frame"]) // 2)
+            else: t.step(op)
+        self._amb_memo = (key, res)
+        return res
+
+    @staticmethod
+    def _canon_steps(steps, amb, tkey):
+        """steps up to the first ambiguous lookup, with what the standard leaves unordered put into a canonical order: entries inside a run
+        of equal effective priority, the flows of a statistics reply, consecutive flow-removed messages of one step"""
+        out = []
+        for st in steps[:amb] if amb is not None else steps:
+            if not isinstance(st, dict) or tkey not in st: out.append(st); continue
+            st = dict(st)
+            tab, i, new = st[tkey], 0, []
+            while i < len(tab):
+                j = i
+                while j < len(tab) and tab[j][1] == tab[i][1]: j += 1
+                new += sorted(tab[i:j], key=lambda e: json.dumps(e, sort_keys=True)); i = j
+            st[tkey] = new
+            outs, i, newo = st.get("outs") or [], 0, []
+            while i < len(outs):
+                o = outs[i]
+                if isinstance(o, dict) and o.get("k") == "fs": newo.append(dict(o, l=sorted(o["l"], key=lambda e: json.dumps(e, sort_keys=True)))); i += 1
+                elif isinstance(o, dict) and o.get("k") == "fr":
+                    j = i
+                    while j < len(outs) and isinstance(outs[j], dict) and outs[j].get("k") == "fr": j += 1
+                    newo += sorted(outs[i:j], key=lambda e: json.dumps(e, sort_keys=True)); i = j
+                else: newo.append(o); i += 1
+            st["outs"] = newo
+            out.append(st)
+        return out
+
     def model_obs(self, case, resp):
         if "error" in resp: return resp
         # a release is observed on the real switch through what it emits: translate the model's (frame, actions) accordingly
         model = [dict(st, outs=[rel_view(o) if o["k"] == "rel" else o for o in st["outs"]]) for st in resp["model"]]
         if not self.pool_seen: model = [dict(st, outs=blind_rel(st["outs"]), pool=None) for st in model]
-        return {"model": self.regroup(case, model, "table"), "spec": self.regroup(case, resp["spec"], "flows")}
+        amb = self.first_ambiguous(case)
+        return {"model": self._canon_steps(self.regroup(case, model, "table"), amb, "table"), "spec": self._canon_steps(self.regroup(case, resp["spec"], "flows"), amb, "flows")}
 
     def impl_view(self, case, obs):
         # left: the real code's observables (compared with the Lean model); right: the Python transcription of the standard
         # (compared with Lean's Spec on every case, so the oracle below and the theorems speak about the same specification)
-        return {"model": [{"outs": s["outs"], "table": s["table"], "pool": s["pool"]} if s["st"] == "ok" else s for s in obs["steps"]],
-                "spec": self.spec_run(case)}
+        amb = self.first_ambiguous(case)
+        return {"model": self._canon_steps([{"outs": s["outs"], "table": s["table"], "pool": s["pool"]} if s["st"] == "ok" else s for s in obs["steps"]], amb, "table"),
+                "spec": self._canon_steps(self.spec_run(case), amb, "flows")}
 
     # ---------------------------------------------------------------- the property, on the real code's observables
+    @staticmethod
+    def _pair_runs(got, want):
+        """index of the first entry of `got` that has no partner in the specification's table, pairing freely inside runs of equal
+        effective priority (got[i][1]); None if everything pairs up"""
+        i = 0
+        while i < len(got):
+            j = i
+            while j < len(got) and got[j][1] == got[i][1]: j += 1
+            rest = list(want[i:j])
+            for off, g in enumerate(got[i:j]):
+                k = next((k for k, w in enumerate(rest) if g[0] == w[0] and g[3:] == w[3:] and spec_identical(g[2], w[2])), None)
+                if k is None: return i + off
+                rest.pop(k)
+            i = j
+        return None
+
+    @staticmethod
+    def _align_fr_runs(go, wo):
+        """the specification's messages with every run of consecutive flow-removed messages reordered to follow the implementation's run
+        (same positions, same multiset): which of several entries removed by ONE command or ONE sweep is announced first is not specified"""
+        wo = list(wo); i = 0
+        while i < len(wo):
+            if wo[i]["k"] != "fr": i += 1; continue
+            j = i
+            while j < len(wo) and wo[j]["k"] == "fr": j += 1
+            run, out = wo[i:j], []
+            for g in go[i:j]:
+                k = next((k for k, w in enumerate(run) if g.get("k") == "fr" and {x: v for x, v in g.items() if x != "m"} == {x: v for x, v in w.items() if x != "m"}
+                          and spec_identical(g["m"], w["m"])), None)
+                if k is None: break
+                out.append(run.pop(k))
+            wo[i:j] = out + run
+            i = j
+        return wo
+
     def compare(self, case, obs, spec):
         """first step at which the real code's observables differ from the specification's `spec`: (step index, text) or None"""
+        amb = self.first_ambiguous(case)
         for n, (op, s, sp) in enumerate(zip(case["ops"], obs["steps"], spec)):
+            if amb is not None and n >= amb: return None          # a frame matched two entries of equal priority: unspecified from here on
             where = "step %d %s" % (n, op["op"] if op["op"] != "fm" else "fm%d" % op["cmd"])
             if s["st"] != "ok": return n, "%s: %s" % (where, s["st"])
             if s.get("ev"): return n, "%s: %s" % (where, s["ev"])
@@ -732,9 +815,11 @@ class C04(Check):
             got, want = s["table"], sp["flows"]
             if len(got) != len(want):
                 return n, "%s: table has %d entries, specification %d" % (where, len(got), len(want))
-            for i, (g, w) in enumerate(zip(got, want)):
-                if g[0] != w[0] or not spec_identical(g[2], w[2]) or g[3:] != w[3:]:
-                    return n, "%s: entry %d differs from the specification's (prio/match/actions/cookie/flags/timeouts/clocks/counters)" % (where, i)
+            # (the order of entries of EQUAL effective priority is left open by the standard and by the property: inside such a run the
+            #  entries are paired up whatever their order; between runs the order is exact)
+            i = self._pair_runs(got, want)
+            if i is not None:
+                return n, "%s: entry %d differs from the specification's (prio/match/actions/cookie/flags/timeouts/clocks/counters)" % (where, i)
             eff = [g[1] for g in got]
             if any(a < b for a, b in zip(eff, eff[1:])): return n, "%s: table not sorted by effective priority" % where
             if s["pool"] is not None and s["pool"] != sp["pool"]: return n, "%s: stored buffers %s, specification %s" % (where, s["pool"], sp["pool"])
@@ -743,6 +828,7 @@ class C04(Check):
             if s["pool"] is None: wo = blind_rel(wo)   # buffer store not observable: a release shows by the frames it sends, and only then
             if len(go) != len(wo) or [o["k"] for o in go] != [o["k"] for o in wo]:
                 return n, "%s: messages %s, specification %s" % (where, [self._brief(o) for o in go], [self._brief(o) for o in wo])
+            wo = self._align_fr_runs(go, wo)                    # several removals in one step: their notifications in any order
             for g, w in zip(go, wo):
                 if g["k"] == "fr":
                     if {k: v for k, v in g.items() if k != "m"} != {k: v for k, v in w.items() if k != "m"}:
@@ -750,8 +836,11 @@ class C04(Check):
                     if not spec_identical(g["m"], w["m"]): return n, "%s: flow-removed carries a different match" % where
                 elif g["k"] == "fs":
                     if len(g["l"]) != len(w["l"]): return n, "%s: flow-stats has %d flows, specification %d" % (where, len(g["l"]), len(w["l"]))
-                    for a, b in zip(g["l"], w["l"]):
-                        if a[1:] != b[1:] or not spec_identical(a[0], b[0]): return n, "%s: flow-stats entry differs" % where
+                    rest = list(w["l"])                       # the order of the flows in a statistics reply is not specified: a multiset
+                    for a in g["l"]:
+                        k = next((k for k, b in enumerate(rest) if a[1:] == b[1:] and spec_identical(a[0], b[0])), None)
+                        if k is None: return n, "%s: flow-stats entry differs" % where
+                        rest.pop(k)
                 elif g["k"] == "rel":
                     if g != (w if w.get("id", 0) is None else rel_view(w)): return n, "%s: buffer release %s, specification %s" % (where, g, rel_view(w))
                 elif g != w:
